@@ -8,6 +8,8 @@ TB = ("Coq 8.16.1 kernel + vm_compute; no axioms declared (Print Assumptions per
       "of the model on the same generated inputs) and, where listed, by the py2coq translator with a re-proved Gen = Model; "
       "Python harness, generators and spec oracles are trusted; see DESIGN.md section 8")
 CLAIMS = {
+ "C15": dict(design="6/C15", technique="Coq proof (structural invariant preserved by every file-system op, hence in every reachable state) + per-op partition correspondence + direct invariant checks",
+   text="coq/Props/C15.v proves for the model of FileSystem/Folder/File container logic, for every sequence of create/delete/restore requests on files and folders, folder restores and ticks: within every folder live file names are unique, no file or folder is both live and deleted or listed twice, deleted flags agree with membership of the deleted sets, live folder names are unique; deleting moves an item to the deleted set, restoring moves it back, a deleted file is unavailable, counters are zero at the start of each tick, creating an existing file is refused without change and creating an existing folder is a no-op. Tied to the code by comparing the whole live/deleted partition (names, flags, order, counters, statuses) after every op of random and bounded-exhaustive sequences (request API and agent actions, conflicting names) with vm_compute of the model; the invariant is also checked directly on the objects and on describe_state."),
  "C12": dict(design="6/C12", technique="Coq proof (power machine invariants for all durations and op sequences, cycle-order table, exact dwell times by countdown induction) + per-op state correspondence + direct property monitors",
    text="coq/Props/C12.v proves for the model of Node.power_on/power_off/reset/apply_timestep, for every duration (0 included), every list of interfaces/services/applications and every sequence of requests and ticks: the state moves only along the power cycle (explicit transition table), interfaces are all disabled whenever the node is not ON, no service runs and no application is open when OFF, every request but start-up is refused while not ON, shutdown/start-up/reset last exactly the configured number of ticks, and interfaces, services and applications come back up at ON. Tied to base.py by comparing the full observable state after every op of random request/tick sequences on computers, servers, switches, routers and firewalls of generated networks with vm_compute of the model; the harness also checks the property directly (transition table, dwell timelines per duration pair, no frame accepted or sent by a non-ON node)."),
  "C05": dict(design="6/C05", technique="Coq proof (dispatch classified for every tree/validator/handler; refused => state unchanged) + live-tree correspondence + permission-table and state-diff search",
